@@ -20,8 +20,9 @@ func (e netErr) Timeout() bool   { return e.timeout }
 func (e netErr) Temporary() bool { return false }
 
 type scriptedOutcome struct {
-	kind  int // 0 nil, 1 system, 2 net, 3 other
+	kind  int // 0 nil, 1 system, 2 net, 3 other, 4 other wrapping a net.Error
 	code  int
+	wrap  int // kind 1: the SystemError wraps 0 nothing, 1 net.Error (timeout), 2 net.Error (no timeout), 3 a plain error, 4 nil (literal)
 	added []string
 }
 
@@ -30,9 +31,21 @@ func (s scriptedOutcome) err() error {
 	case 0:
 		return nil
 	case 1:
+		switch s.wrap {
+		case 1:
+			return tchannel.NewWrappedSystemError(tchannel.SystemErrCode(s.code), netErr{timeout: true})
+		case 2:
+			return tchannel.NewWrappedSystemError(tchannel.SystemErrCode(s.code), netErr{timeout: false})
+		case 3:
+			return tchannel.NewWrappedSystemError(tchannel.SystemErrCode(s.code), errors.New("scripted cause"))
+		case 4:
+			return tchannel.VerifC17SystemError(s.code, nil)
+		}
 		return tchannel.NewSystemError(tchannel.SystemErrCode(s.code), "scripted %d", s.code)
 	case 2:
 		return netErr{timeout: s.code%2 == 0}
+	case 4:
+		return fmt.Errorf("scripted other wrapping: %w", netErr{timeout: s.code%2 == 0})
 	default:
 		return errors.New("scripted other")
 	}
@@ -60,9 +73,9 @@ func specRetryable(policy int, o scriptedOutcome) bool {
 	switch o.kind {
 	case 2:
 		class = "network"
-	case 3:
+	case 3, 4:
 		class = "unexpected"
-	case 1:
+	case 1: // a SystemError's own code decides, whatever it wraps
 		switch o.code {
 		case 3, 4:
 			class = "busy/declined"
@@ -107,16 +120,21 @@ func engineRetry(rng *rand.Rand, n int, tier string, o *Out) {
 				if kind != 1 && code > 1 {
 					continue
 				}
-				so := scriptedOutcome{kind: kind, code: code}
-				e := so.err()
-				got := tchannel.RetryOn(policy).CanRetry(e)
-				verdict := ""
-				if policy <= 5 && got != specRetryable(policy, so) {
-					verdict = fmt.Sprintf("CanRetry(policy=%d kind=%d code=%d)=%v, documented table says %v", policy, kind, code, got, !got)
+				for wrap := 0; wrap <= 4; wrap++ {
+					if wrap > 0 && kind != 1 {
+						continue
+					}
+					so := scriptedOutcome{kind: kind, code: code, wrap: wrap}
+					e := so.err()
+					got := tchannel.RetryOn(policy).CanRetry(e)
+					verdict := ""
+					if policy <= 5 && got != specRetryable(policy, so) {
+						verdict = fmt.Sprintf("CanRetry(policy=%d kind=%d code=%d wrapping=%d)=%v, documented table says %v", policy, kind, code, wrap, got, !got)
+					}
+					in := append([]int64{int64(policy)}, encErr(e)...)
+					o.Case("canretry", fmt.Sprintf("t%d", id), in, []int64{b2i(got)}, true, verdict)
+					id++
 				}
-				in := append([]int64{int64(policy)}, encErr(e)...)
-				o.Case("canretry", fmt.Sprintf("t%d", id), in, []int64{b2i(got)}, true, verdict)
-				id++
 			}
 		}
 	}
@@ -145,11 +163,14 @@ func engineRetry(rng *rand.Rand, n int, tier string, o *Out) {
 				case 0:
 					so.kind = 2
 				case 1:
-					so.kind = 3
+					so.kind = []int{3, 4}[rng.Intn(2)]
 				case 2, 3, 4, 5:
 					so.kind, so.code = 1, []int{3, 4}[rng.Intn(2)]
 				default:
 					so.kind, so.code = 1, interesting[rng.Intn(len(interesting))]
+				}
+				if so.kind == 1 && rng.Intn(2) == 0 {
+					so.wrap = 1 + rng.Intn(4)
 				}
 			}
 			for k := rng.Intn(3); k > 0; k-- {
@@ -369,6 +390,10 @@ func engineRetry(rng *rand.Rand, n int, tier string, o *Out) {
 				before[hp] = true
 			}
 			var err error
+			if rs.Attempt < 1 || rs.Attempt > len(plan) {
+				verdict = fmt.Sprintf("attempt number %d with MaxAttempts %d", rs.Attempt, len(plan))
+				return nil
+			}
 			if plan[rs.Attempt-1] == 0 {
 				_, err = ch.BeginCall(actx, direct, "svc", "m", &tchannel.CallOptions{RequestState: rs})
 				tried[direct] = true
